@@ -1,31 +1,260 @@
-//! C15 — placeholder (not registered in MANIFEST until built).
+//! C15 — speculative lanes fork faithfully and settle lawfully.
+//!
+//! Scheduled parties: clients delivering program-carrying intents to a base worldline ("parent",
+//! lane 0) and to the child worldlines of up to three strands, one scheduler pass per `Tick` op with
+//! a seeded subset of lanes, interleaved with `fork_strand` at a seeded tick of the parent history
+//! (shared and author-only postures), `SettlementService::compare / plan / settle` under the
+//! default and the plural policy, re-forks after settlement and support pins.
+//! Faults: the H6 fail point `settlement.exec` armed at chosen steps of the settlement execution
+//! (after each appended decision, after the braid-shell append), and `fork_strand` requests that
+//! are rejected after provenance was already forked (duplicate strand id, posture rejection, head
+//! of the wrong worldline, wrong head count) or before (existing child worldline, tick out of range).
+//! Oracle: see `exec.rs` (fork faithfulness, lane isolation, plan purity, never-overwrite, imported
+//! values, replayability, atomic failure).
+
+mod exec;
+mod gen;
+mod slots;
 
 use serde::{Deserialize, Serialize};
 
 use crate::kernel::{Outcome, PropertySpec, Rng, RunCtx, Scenario, Tier};
+use crate::world::prog::Prog;
+use crate::world::runtime::WorldSpec;
 
 pub const SPEC: PropertySpec = PropertySpec {
     id: "C15",
-    level: "exploration",
-    rule: "placeholder",
-    quick_runs: 1,
-    thorough_runs: 1,
-    real_components: &[],
-    stub_components: &[],
-    assumptions: &[],
-    fault_kinds: &[],
+    level: "fault_enumeration",
+    rule: "scenario = base worldline (1-2 heads, 2-4 data nodes, 1-3 edges) + op tape: parent history, Fork at a seeded tick (shared / author-only, optionally preceded by a rejected fork request), Tick ops delivering one program per chosen lane (parent and/or strand children; programs steered to disjoint / read-overlapping / write-overlapping same-or-different-value slot sets), Settle (default or plural policy, fail point armed at chosen execution steps before the real settle), Pin/Unpin; non-trivial = a settlement with >=1 decision was planned after both lanes ticked since the fork, or a failure was injected into a settlement with >=1 decision; distinct = hash of scenario",
+    quick_runs: 6_000,
+    thorough_runs: 60_000,
+    real_components: &[
+        "WorldlineRuntime::fork_strand / pin_support / unpin_support",
+        "ProvenanceService::fork, replay_worldline_state(_at), checkpoint_for/restore, braid shell retention",
+        "StrandRegistry, Strand::live_basis_report",
+        "SettlementService::compare / plan / settle (+_with_policy)",
+        "SchedulerCoordinator::super_tick + Engine (ticks on parent and child lanes)",
+    ],
+    stub_components: &["application rules: data-driven interpreter; programs are generated data"],
+    assumptions: &[
+        "slots a lane read/wrote are taken from in_slots/out_slots of the real tick patches; slots the parent changed additionally include every slot whose abstract value differs between the fork basis and the pre-settlement parent",
+        "an entry whose ops the reference applier cannot apply to the current parent is not required to be imported even when footprints are disjoint",
+        "read-overlapping entries may be imported (the statement only forbids overwriting parent changes)",
+        "fail point fires inside the execution closure; the error value it returns is an existing SettlementError variant and is not interpreted",
+        "a settlement may be refused as a whole (e.g. a repeated plural settlement of the same strand: PluralArtifactAlreadyBound); a refusal must leave every fingerprint unchanged; failures are injected only into settlements that succeed on copies of runtime and provenance",
+        "unchanged = BLAKE3 of the {:?} text of WorldlineRuntime / ProvenanceService (private indexes included); differing top-level fields are named from the {:#?} fingerprints of world::runtime",
+        "settling an author-only strand must be refused with NonSharedStrand and change nothing; compare is allowed for every posture",
+    ],
+    fault_kinds: &[
+        "fault.settlement_failpoint.step1",
+        "fault.settlement_failpoint.step2",
+        "fault.settlement_failpoint.step3",
+        "fault.settlement_failpoint.step4",
+        "fault.settlement_failpoint.step5plus",
+        "fault.settlement_failpoint.shell_step",
+        "fault.fork_late_failure",
+        "fault.fork_early_rejection",
+    ],
 };
+
+/// One program delivered to one lane before a pass. Lane 0 is the parent, lane k >= 1 the child
+/// worldline of the strand with id k.
+#[derive(Clone, Debug, Serialize, Deserialize, PartialEq, Eq)]
+pub struct LaneProg {
+    pub lane: u8,
+    /// Parent only: index of the writer head (taken modulo the number of parent heads).
+    pub head: u8,
+    pub kind: u8,
+    pub prog: Prog,
+}
+
+#[derive(Clone, Copy, Debug, Serialize, Deserialize, PartialEq, Eq)]
+pub enum ForkFault {
+    /// Re-uses the id of a live strand: rejected by the very last step (after provenance fork,
+    /// worldline and head registration).
+    DupStrandId,
+    /// Shared posture without admission scope: rejected by `Strand::new` after the provenance fork.
+    BadPosture,
+    /// Writer head keyed to the parent worldline (INV-S8).
+    WrongHeadWorldline,
+    TwoHeads,
+    NoHeads,
+    /// Child worldline id of a live strand (or the parent itself): rejected by the provenance fork.
+    DupChildWorldline,
+    /// Fork tick beyond the parent history.
+    TickOutOfRange,
+}
+
+#[derive(Clone, Debug, Serialize, Deserialize, PartialEq, Eq)]
+pub struct ForkOp {
+    /// Strand id (>= 1), unique within the scenario.
+    pub id: u8,
+    /// Fork tick = tick_sel modulo the parent history length at that point.
+    pub tick_sel: u16,
+    pub shared: bool,
+    /// A request that must be rejected, issued before the real one.
+    pub fault: Option<ForkFault>,
+}
+
+#[derive(Clone, Debug, Serialize, Deserialize, PartialEq, Eq)]
+pub struct SettleOp {
+    pub strand: u8,
+    pub plural: bool,
+    /// Use `plan`/`settle` (default policy only) instead of the `_with_policy` entry points.
+    pub plain_api: bool,
+    /// Execution steps (modulo decisions+1) at which a failure is injected, one settle attempt each,
+    /// before the real settlement.
+    pub fail_steps: Vec<u8>,
+}
+
+#[derive(Clone, Debug, Serialize, Deserialize, PartialEq, Eq)]
+pub enum Op {
+    /// Deliver each program to its lane, then one scheduler pass.
+    Tick(Vec<LaneProg>),
+    Fork(ForkOp),
+    Settle(SettleOp),
+    Pin { owner: u8, target: u8, tick_sel: u16 },
+    Unpin { owner: u8, target: u8 },
+}
 
 #[derive(Clone, Debug, Serialize, Deserialize)]
 pub struct C15 {
-    pub placeholder: u8,
+    pub world: WorldSpec,
+    pub ops: Vec<Op>,
 }
 
 impl Scenario for C15 {
-    fn generate(_rng: &mut Rng, _tier: Tier, _avoid: bool) -> Self {
-        C15 { placeholder: 0 }
+    fn generate(rng: &mut Rng, tier: Tier, avoid: bool) -> Self {
+        gen::generate(rng, tier, avoid)
     }
-    fn execute(&self, _ctx: &mut RunCtx) -> Outcome {
-        Outcome::Ok
+
+    fn execute(&self, ctx: &mut RunCtx) -> Outcome {
+        exec::execute(self, ctx)
+    }
+
+    fn shrink_candidates(&self) -> Vec<Self> {
+        let mut out = Vec::new();
+        // drop a whole strand: its fork and every op that names it
+        let strand_ids: Vec<u8> = self.ops.iter().filter_map(|o| if let Op::Fork(f) = o { Some(f.id) } else { None }).collect();
+        for id in &strand_ids {
+            let mut s = self.clone();
+            s.ops = s
+                .ops
+                .into_iter()
+                .filter_map(|o| match o {
+                    Op::Fork(f) if f.id == *id => None,
+                    Op::Settle(x) if x.strand == *id => None,
+                    Op::Pin { owner, target, .. } | Op::Unpin { owner, target } if owner == *id || target == *id => None,
+                    Op::Tick(mut ps) => {
+                        ps.retain(|p| p.lane != *id);
+                        if ps.is_empty() {
+                            None
+                        } else {
+                            Some(Op::Tick(ps))
+                        }
+                    }
+                    other => Some(other),
+                })
+                .collect();
+            out.push(s);
+        }
+        // drop one op
+        for i in 0..self.ops.len() {
+            let mut s = self.clone();
+            s.ops.remove(i);
+            out.push(s);
+        }
+        for (oi, op) in self.ops.iter().enumerate() {
+            match op {
+                Op::Fork(f) => {
+                    if f.fault.is_some() {
+                        let mut s = self.clone();
+                        if let Op::Fork(x) = &mut s.ops[oi] {
+                            x.fault = None;
+                        }
+                        out.push(s);
+                    }
+                    if f.tick_sel > 0 {
+                        let mut s = self.clone();
+                        if let Op::Fork(x) = &mut s.ops[oi] {
+                            x.tick_sel = 0;
+                        }
+                        out.push(s);
+                    }
+                }
+                Op::Settle(x) => {
+                    if !x.fail_steps.is_empty() {
+                        let mut s = self.clone();
+                        if let Op::Settle(y) = &mut s.ops[oi] {
+                            y.fail_steps.clear();
+                        }
+                        out.push(s);
+                        if x.fail_steps.len() > 1 {
+                            for k in 0..x.fail_steps.len() {
+                                let mut s = self.clone();
+                                if let Op::Settle(y) = &mut s.ops[oi] {
+                                    y.fail_steps.remove(k);
+                                }
+                                out.push(s);
+                            }
+                        }
+                    }
+                    if x.plural {
+                        let mut s = self.clone();
+                        if let Op::Settle(y) = &mut s.ops[oi] {
+                            y.plural = false;
+                        }
+                        out.push(s);
+                    }
+                }
+                Op::Tick(ps) => {
+                    if ps.len() > 1 {
+                        for k in 0..ps.len() {
+                            let mut s = self.clone();
+                            if let Op::Tick(y) = &mut s.ops[oi] {
+                                y.remove(k);
+                            }
+                            out.push(s);
+                        }
+                    }
+                    for (pi, p) in ps.iter().enumerate() {
+                        if p.prog.steps.len() > 1 {
+                            for si in 0..p.prog.steps.len() {
+                                let mut s = self.clone();
+                                if let Op::Tick(y) = &mut s.ops[oi] {
+                                    y[pi].prog.steps.remove(si);
+                                }
+                                out.push(s);
+                            }
+                        }
+                    }
+                }
+                Op::Pin { .. } | Op::Unpin { .. } => {}
+            }
+        }
+        // simpler world
+        if self.world.workers > 1 || self.world.legacy {
+            let mut s = self.clone();
+            s.world.workers = 1;
+            s.world.legacy = false;
+            out.push(s);
+        }
+        if let Some(wl) = self.world.worldlines.first() {
+            if wl.heads.len() > 1 {
+                let mut s = self.clone();
+                s.world.worldlines[0].heads.truncate(1);
+                s.world.worldlines[0].heads[0].default = true;
+                out.push(s);
+            }
+            if let Some(inst) = wl.state.insts.first() {
+                if !inst.node_atts.is_empty() || !inst.edge_atts.is_empty() {
+                    let mut s = self.clone();
+                    s.world.worldlines[0].state.insts[0].node_atts.clear();
+                    s.world.worldlines[0].state.insts[0].edge_atts.clear();
+                    out.push(s);
+                }
+            }
+        }
+        out
     }
 }
